@@ -28,6 +28,8 @@ type Prog struct {
 	// the synthetic bound/thunk wrappers referenced from them.
 	Funcs    []*ssa.Function
 	byName   map[string]*ssa.Function
+	alias    map[*ssa.Function]string // renamed function -> reference name (renames.go)
+	Renames  []string
 	privMemo map[*ssa.Function]bool
 
 	cg        map[*ssa.Function][]cgEdge
@@ -120,6 +122,7 @@ func Load(dir, goarch string, tags string) (*Prog, error) {
 	}
 	p.buildCallGraph()
 	curProg = p
+	p.followRenames()
 	return p, nil
 }
 
@@ -149,6 +152,9 @@ func (p *Prog) inPkg(fn *ssa.Function) bool {
 func (p *Prog) FuncName(fn *ssa.Function) string {
 	if fn == nil {
 		return "<nil>"
+	}
+	if n, ok := p.alias[fn]; ok {
+		return n
 	}
 	if par := fn.Parent(); par != nil {
 		// anonymous: name is parent$N
